@@ -101,6 +101,9 @@ def run(tier, seed):
     # ---- 4. create_dict() contents and create_dict(**user)
     try:
         dictionary_checks(chk, tb, L)
+        dictionary_history(chk, tb, rng, L)
+    except common.MachineryError:
+        raise
     except Exception as ex:
         chk.violation("exception:create_dict:" + type(ex).__name__, dict(error=repr(ex), where=traceback.format_exc()[-1500:]))
 
@@ -197,6 +200,60 @@ def dictionary_checks(chk, tb, L):
     chk.evaluations += 1
     if got != tb.dict["W"]["u"] or set(d3) != {"X", "Y", "Z"}:
         chk.violation("create_dict:user:overwrite", dict(got=got))
+
+
+def dictionary_history(chk, tb, rng, L):
+    """The same letters under DIFFERENT dictionaries within one process (two states that each add a
+    user unitary under the same name, an overridden default key, then the first dictionary again): every
+    call must use the dictionary it is given / its state carries.  Expected values come from the
+    exported dense matrices of the string obtained by renaming the letters to the specification's."""
+    import numpy as np
+    un = L.un
+    M = lambda b: L.user_matrix(tb.dict[b]["u"], tb.dict[b]["fac"], "tensor")  # noqa: E731
+    dicts = [("A->S,B->R", dict(A=M("S"), B=M("R")), {"A": "S", "B": "R"}),
+             ("A->R,B->S", dict(A=M("R"), B=M("S")), {"A": "R", "B": "S"}),
+             ("A->S,B->R", dict(A=M("S"), B=M("R")), {"A": "S", "B": "R"}),
+             ("X->Y,Y->X", dict(X=M("Y"), Y=M("X")), {"X": "Y", "Y": "X"}),
+             ("default", dict(), {}),
+             ("A->W,B->Y", dict(A=M("W"), B=M("Y")), {"A": "W", "B": "Y"})]
+    strings = ["AB", "BA", "AZ", "ZB", "XA", "BY", "AA", "XY", "YZ"]
+    x = [[1, 2], [3, -1], [-2, 1], [0, 4]]                       # generic Gaussian-integer psi on 2 sites
+    xc = np.array([complex(a, b) for a, b in x])
+    rho = np.outer(xc, xc.conj()) + np.diag([1, 2, 3, 4])         # Hermitian, PSD, rho != rho^T
+    space = L.space_tensor(tb.rows[2])
+    t_psi = L.vec_tensor(x)
+    t_rho = L.mat_tensor([[[int(v.real), int(v.imag)] for v in row] for row in rho])
+    for rnd, (label, user, rename) in enumerate(dicts):
+        ud = un.create_dict(**user)
+        for via in ("argument", "state"):
+            for s_ in strings:
+                if not set(s_) <= set(ud):
+                    continue
+                spec = tuple(rename.get(ch, ch) for ch in s_)
+                if spec not in tb.dense:
+                    raise common.MachineryError("no exported dense matrix for %s" % (spec,))
+                D, nf = tb.dense[spec]["D"], tb.dense[spec]["nfac"]
+                want_psi = D @ xc
+                want_rho = np.real(np.diag(D @ rho @ D.conj().T))
+                for kind in ("psi", "rho"):
+                    st = L.state_for("complex" if kind == "psi" else "density", 2, unitary_dict=ud if via == "state" else None)
+                    arg = ud if via == "argument" else None
+                    chk.evaluations += 1
+                    det = dict(round=rnd, dictionary=label, via=via, basis=s_, denotes="".join(spec))
+                    if kind == "psi":
+                        got, err = L.to_gauss(un.rotate_psi_inner_prod(st, s_, space, unitaries=arg, psi=t_psi), L.sqrt2pow(nf))
+                        exp = [[int(round(v.real)), int(round(v.imag))] for v in want_psi]
+                        if err > L.INT_TOL or [list(g) for g in got] != exp:
+                            chk.violation("dictionary-history:rotate_psi_inner_prod", dict(det, expected=exp, got=got))
+                        got, err = L.to_gauss(un.rotate_psi(st, s_, space, unitaries=arg, psi=t_psi), L.sqrt2pow(nf))
+                        if err > L.INT_TOL or [list(g) for g in got] != exp:
+                            chk.violation("dictionary-history:rotate_psi", dict(det, expected=exp, got=got))
+                    else:
+                        p = un.rotate_rho_probs(st, s_, space, unitaries=arg, rho=t_rho)
+                        gotp = (p * (2 ** nf)).tolist()
+                        if any(abs(a - b) > 1e-9 for a, b in zip(gotp, want_rho.tolist())):
+                            chk.violation("dictionary-history:rotate_rho_probs", dict(det, expected=want_rho.tolist(), got=gotp))
+    chk.nontriv("dictionary-history")
 
 
 def trace_phase(chk, tb, rng, quick, L, RR):
